@@ -32,6 +32,12 @@ type ledgerRun struct {
 	dataT int
 }
 
+// adoptByRun: oracles of sibling properties whose verdicts a run reports under the check's own property
+// (key "<id>.via-<sibling>/<sibling key>"): the run's histories make that oracle a consequence of this property
+var adoptByRun = map[string][]string{
+	"C07/stale-overdrawing-tip+truncate": {"C01"},
+}
+
 func (r ledgerRun) maxData(tier string) int {
 	d := r.dataQ
 	if tier == "thorough" {
@@ -159,6 +165,8 @@ var ledgerSpecs = []ledgerSpec{
 		return wide(tier, []ledgerRun{
 			{"same-trx-two-nodes+dup", ledger.Cfg{Nodes: []string{"G", "N1"}, Supply: sp(10, 0), Menu: []ledger.TxSpec{t1, t7}, Dup: true, Tick: true, Props: only("C03")}, d, 0, 0},
 			{"drop-then-repropose+truncate", ledger.Cfg{Nodes: []string{"G"}, Supply: sp(10, 0), Menu: []ledger.TxSpec{t1, t3, t7}, Crafted: []ledger.TxSpec{mx}, Truncate: true, Props: only("C03")}, d, 0, 0},
+			// proposals whose caller goes away (context cancelled from the k-th poll on) between ordinary ones, incl. over an overdrawing tip
+			{"cancelled-proposals", ledger.Cfg{Nodes: []string{"G"}, Supply: sp(10, 0), Menu: []ledger.TxSpec{t1, t3, t7, mx}, ProposeCancel: []int{0, 1, 2}, Props: only("C03")}, d - 1, 0, 0},
 			// data-only (contract) vertices in the truncated region, re-offered afterwards
 			{"contracts+truncate", ledger.Cfg{Nodes: []string{"G"}, Supply: sp(10, 0), Menu: []ledger.TxSpec{t1, {Label: "cx", From: "R", To: "B", Data: "d"}, {Label: "cy", From: "A", To: "B", Data: "d"}, cfl2("c7")}, Truncate: true,
 				Prefix: []string{"P:0:c1", "P:0:p1"}, Props: only("C03")}, d, 0, 0},
@@ -201,6 +209,11 @@ var ledgerSpecs = []ledgerSpec{
 			{"interrupted-truncation", ledger.Cfg{Nodes: []string{"G"}, Supply: sp(10, 0), Menu: []ledger.TxSpec{t3, cf("c4")}, Hidden: []ledger.TxSpec{t1}, Truncate: true, TruncCancel: []int{1, 2, 3, 4, 5, 6},
 				Prefix: []string{"P:0:t1", "P:0:c1", "P:0:c2", "P:0:c3"}, Props: only("C07")}, 3, 0, 0},
 			{"two-nodes", ledger.Cfg{Nodes: []string{"G", "N1"}, Supply: sp(10, 0), Menu: []ledger.TxSpec{t1, t3, t7}, Truncate: true, MaxProposeNodes: 1, Props: only("C07")}, d, 0, 0},
+			// "later transfers are validated against the same funds as before": a stale overdrawing side tip whose parents
+			// get checkpointed (node 0 holds mx on p1 while node 1's chain grows past it) must still be dropped, not built
+			// upon, when the next proposal judges it against the checkpointed funds (the covered-spend oracle of C01)
+			{"stale-overdrawing-tip+truncate", ledger.Cfg{Nodes: []string{"G", "N1"}, Supply: sp(10, 0), Menu: []ledger.TxSpec{t1, t3}, Hidden: []ledger.TxSpec{mx}, MaxProposeNodes: 1, Truncate: true,
+				Prefix: []string{"P:0:p1", "D:1:0", "X:0:mx", "P:1:p2", "P:1:p3", "P:1:p4", "D:0:2", "D:0:3", "D:0:4"}, Props: only("C07", "C01")}, 3, 0, 0},
 			// amounts at the 2^64 edge: the same 2^63 coins move twice inside the truncated region (each balance representable)
 			{"huge-amounts+truncate", ledger.Cfg{Nodes: []string{"G"}, Supply: sp(1<<64-1, 0), Menu: []ledger.TxSpec{cf("c4"), cf("c5"), tx("w3", "B", "A", 1<<62, 999_999_999_999_999_999)},
 				Hidden: []ledger.TxSpec{tx("w1", "R", "A", 1<<63, 0), tx("w2", "A", "B", 1<<63, 0)}, Truncate: true,
@@ -218,6 +231,8 @@ var ledgerSpecs = []ledgerSpec{
 			{"two-nodes+overdraw+truncate+dup", ledger.Cfg{Nodes: []string{"G", "N1"}, Supply: sp(10, 0), Menu: []ledger.TxSpec{t1, t2, t3}, Crafted: []ledger.TxSpec{mx}, Truncate: true, Dup: true, Tick: true, Props: only("C09")}, d, 0, 0},
 			// branches of unequal depth merged by a local proposal: two proposals at node 0, one at node 1, its delivery, then a fourth proposal
 			{"unequal-branches-merged", ledger.Cfg{Nodes: []string{"G", "N1"}, Supply: sp(10, 0), Menu: []ledger.TxSpec{t1, t3, t7, tx("t7c", "R", "A", 0, 3)}, MaxProposeNodes: 1, Props: only("C09")}, d, 0, 0},
+			// proposals whose caller goes away (context cancelled from the k-th poll on): what they create must still reference valid tips only
+			{"cancelled-proposals", ledger.Cfg{Nodes: []string{"G"}, Supply: sp(10, 0), Menu: []ledger.TxSpec{t1, t3, t7, mx}, ProposeCancel: []int{0, 1, 2}, Props: only("C09")}, d, 0, 0},
 			// data-only vertices and transfers mixed, truncated from a non-initial history
 			{"contracts+transfers+truncate", ledger.Cfg{Nodes: []string{"G"}, Supply: sp(10, 0), Menu: []ledger.TxSpec{t1, t3, {Label: "cx", From: "R", To: "B", Data: "d"}, {Label: "cy", From: "A", To: "B", Data: "d"}},
 				Truncate: true, Prefix: []string{"P:0:c1", "P:0:p1", "P:0:c2"}, Props: only("C09")}, d, 0, 0},
@@ -416,7 +431,7 @@ func ledgerMain(s ledgerSpec, args []string) int {
 		if *depthF > 0 {
 			d = *depthF
 		}
-		frep := &filterRep{rep: rep, id: s.id, run: r.name}
+		frep := &filterRep{rep: rep, id: s.id, run: r.name, adopt: adoptByRun[s.id+"/"+r.name]}
 		// every run gets an equal share of what is left of the budget (runs that finish early leave their share to the later ones)
 		runDeadline := deadline
 		if left := len(runs) - ri; left > 1 && *run == "" {
@@ -528,12 +543,20 @@ func isSchedReplay(path string) bool {
 }
 
 type filterRep struct {
-	rep *common.Report
-	id  string
-	run string
+	rep   *common.Report
+	id    string
+	run   string
+	adopt []string
 }
 
 func (f *filterRep) add(v common.Violation) {
+	for _, a := range f.adopt {
+		if v.Property == a && a != f.id {
+			v.Key = f.id + ".via-" + a + "/" + v.Key
+			v.Predicate = f.id + ".via-" + v.Predicate
+			v.Property = f.id
+		}
+	}
 	if v.Property == f.id || v.Property == "" || v.Property == "ALL" {
 		if v.Property != f.id {
 			v.Key = f.id + "/" + v.Key
@@ -597,7 +620,7 @@ func ledgerReplay(s ledgerSpec, runs []ledgerRun, path string) int {
 			keys = append(keys, res.Succs[0].Key)
 			for _, vv := range res.Violations {
 				fmt.Printf("replay %d: %s: %s\n", k, vv.Key, vv.What)
-				if vv.Key == v.Key || s.id+"/"+vv.Key == v.Key {
+				if vv.Key == v.Key || s.id+"/"+vv.Key == v.Key || strings.HasSuffix(v.Key, "/"+vv.Key) && strings.HasPrefix(v.Key, s.id+".via-") {
 					found = true
 				}
 			}
